@@ -26,7 +26,8 @@ Either form may be followed by evaluation requests (the interconnected system us
           | tr <N> POOL ( POOL )^N        -- initial state, then the input sample of each step
   POOL   := <count> <rat>*                -- entry i of the vector = i-th value (0 beyond the end)
 
-Answer: `ok <nin> <nout> cm MAT im MAT om MAT (lin <n> A B C D | nl)` or `err <Err>`; for each
+Answer: `ok <nin> <nout> cm MAT im MAT om MAT [un <k> LABEL* <k> LABEL*] (lin <n> A B C D | nl)`
+(`un …` only with addUnused = 1: names of the appended inputs / outputs) or `err <Err>`; for each
 request ` ev RHS OUT` (`n x k` and `nout x k`, one column per point) / ` tr XS YS` (`n x N`,
 `nout x N`) or ` ev err <Err>` / ` tr err <Err>`.  The evaluations run `Wiring.eval`'s loop
 (`evalBatch`, in the tabulated form) and `IC.dtTraj`.
@@ -278,6 +279,18 @@ def showMaps (m : Maps Q) : String :=
     ++ " im " ++ showMat (toMat m.nu m.nin m.inp)
     ++ " om " ++ showMat (toMat m.nout (m.ny + m.nu) m.out)
 
+/-- `add_unused=True`: the labels of the appended external inputs / outputs (`IC.addedLabels`),
+in the order of the appended columns of `input_map` / rows of `output_map`:
+` un <k> <label>* <k> <label>*`. -/
+def showAdded (a : Args Q) : String :=
+  if !a.addUnused then ""
+  else
+    match addedLabels a with
+    | .error e => " un " ++ showErr e
+    | .ok (li, lo) =>
+      let sh := fun (l : List String) => s!"{l.length}" ++ String.join (l.map fun x => " " ++ x)
+      " un " ++ sh li ++ " " ++ sh lo
+
 /-! operator expressions -/
 
 inductive OpExpr where
@@ -396,7 +409,7 @@ def run : P String := do
   match interconnect args with
   | .error e => do dropRequests; pure (showErr e)
   | .ok m =>
-    let head := showMaps m
+    let head := showMaps m ++ showAdded args
     match syss.mapM (·.lin) with
     | none => pure (head ++ " nl")
     | some lins =>
